@@ -28,6 +28,8 @@ def gen_cases(tier, seed):
         sim = simreg.ALL_SIMS[k % len(simreg.ALL_SIMS)]
         c = simreg.random_sim_case(r, sim)
         c['full'] = (k // len(simreg.ALL_SIMS)) % 2 == 1
+        if sim == 'Gillespie_simple_contagion' and r.random() < 0.15:
+            c['alias'] = 'Gillespie_Arbitrary'      # the older public name of the same simulator
         if sim == 'Gillespie_simple_contagion' and r.random() < 0.3 and not c['full']:
             ks = len(c['spec']['statuses'])
             c['return_idx'] = sorted(r.sample(range(ks), r.randint(1, ks)))
@@ -98,8 +100,9 @@ def run_monitored(case, res, mine, keyfmt=None):
     before = sum(contracts.EVALS.values())
     rm0, ex0 = contracts.EVALS['row_moves'], contracts.EVALS['extinction']
     try:
-        import EoN
-        out = getattr(EoN, call.sim)(*call.args, **call.kw)
+        import EoN, io, contextlib
+        with contextlib.redirect_stdout(io.StringIO()):
+            out = getattr(EoN, case.get('alias') or call.sim)(*call.args, **call.kw)
     except Exception as e:
         contracts.drain()
         return call, None, e
@@ -124,7 +127,7 @@ def run_case(case):
         return res
     call, out, err = run_monitored(case, res, MINE)
     if err is not None:
-        viol(res, '%s|%s|exception:%s' % (case['sim'], ('full' if case.get('full') else 'arrays') + ('+R0' if case.get('R0') else ''),
+        viol(res, '%s|%s|exception:%s' % (case.get('alias') or case['sim'], ('full' if case.get('full') else 'arrays') + ('+R0' if case.get('R0') else ''),
                                           simcase.exc_key(err)), {'err': repr(err)})
         return res
     if call.full and hasattr(out, 't'):
